@@ -31,7 +31,8 @@ each writing EVERY output format of the CLI in one invocation (and, as a separat
 sdkconfig` in place).  After the first process all mtimes are forced to the epoch; after every later process every destination
 must have the same inode, mtime, size and bytes as before it, and nothing else in the directory may change.  Sensitivity
 control (independent of the library): bare interpreters started with the same seeds must iterate set(<alias names>) in at least
-two different orders (counter H_items_whose_seeds_order_an_alias_set_differently == number of part H items).
+two different orders (counter H_items_whose_seeds_order_an_alias_set_differently == number of part H items whose table
+gives some option two or more aliases).
 
 Part B (fault enumeration over save histories).  One long-lived Kconfig instance (a session) performs 1, 2 or 3 successive
 CHANGED saves to the same destination with backup enabled: hist = [c0, c1, .. cn]; the file initially holds the complete
